@@ -60,7 +60,7 @@ func NewBufferSize(size int) *Buffer {
 // of the buffer. Note that the case where p shares the same backing
 // memory as b is optimized.
 func (b *Buffer) Write(p []byte) (n int, err error) {
-	if len(p)+b.n > cap(b.buf) {
+	if len(p)+b.n > len(b.buf) {
 		return 0, fmt.Errorf("buffer too small")
 	}
 	inc := copy(b.buf[b.n:], p) // This is optimized if &b.buf[b.n:][0] == &p[0]
